@@ -22,9 +22,10 @@ CFG = {
                      "the external sixel decoder (go-sixel) is a parameter: safety of the DCS arm is proved under the hypothesis DecoderTame "
                      "(no panic / unbounded allocation / unbounded loop on a payload that sixelTooLarge lets through), which the C05 stream "
                      "checks on the real library on every generated payload (counter dcs:DECODER-CRASH-WITHIN-LIMIT, note hypothesis_violations)",
-                     "Go int is modelled by unbounded Int: proved sound for 36 of the 66 translated bodies (Props/C05Overflow range_<fn>: every +/- "
-                     "stays within 2^62 on every good state with parameters clamped to 0..65535); for print, resize, cht, cbt and the round-3 bodies "
-                     "(sgr, osc, modes, decsc/decrc/ris: little or no arithmetic) it still rests on the bounds of the safety lemmas and the correspondence run",
+                     "Go int is modelled by unbounded Int: proved sound for 38 of the 73 translated bodies (Props/C05Overflow range_<fn>: every +/- "
+                     "stays within 2^62 on every good state with parameters clamped to 0..65535; round 4: range_cht, range_cbt for EVERY state and tab-stop list — "
+                     "the counter of the walk stays within 0..ps); for print, resize and the bodies with little or no arithmetic "
+                     "(sgr, osc, modes, decsc/decrc/ris, the reply arms) it still rests on the bounds of the safety lemmas and the correspondence run",
                      "evalBody (the meaning of the translated bodies) fixes loop bounds, vt.width()/height() and the pen at loop entry and treats a "
                      "return inside a final loop as break; function-level loops (forS over the snapshot of the old screen, forParams, forSgr walking the "
                      "parameter list relative to i) run their body at function level; string locals of osc() follow Go block scoping: all justified "
@@ -34,10 +35,17 @@ CFG = {
                      "the generated fact cutStringSrc, theorem cutString_pinned), the composite literals of decsc/decrc/ris (saved-cursor record, charsets, "
                      "mode reset), the DEC-special translation and single shift of print, screen allocation and saved-cursor clamp of resize",
                      "dispatchers: csi()/esc()/c0() = regenerated table (label, callee, how the parameters are passed) composed with the regenerated "
-                     "body of the callee or of the inline arm (csi_is_generated, esc_is_generated, c0_is_generated); the parameter clamp of csi() itself, the "
-                     "reply-only arms (DA1, DA2, DSR, $p), ESC # 8 (empty), BEL (an event) and update() are hand-transcribed + correspondence",
-                     "C05Events: the LTS of the PTY goroutine is tied to the source by the extracted facts eventCap, postEventIsPlainSend, "
-                     "loopArms, loopDrainsFirst and validated against the real loop by the C05Events stream"],
+                     "body of the callee or of the inline arm (csi_is_generated, esc_is_generated, c0_is_generated); since round 4 EVERY arm has a translated body "
+                     "(csi_arms_all_translated ...): the reply-only arms DA1/DA2/DSR (Stmt.reply = builds or writes a reply, no effect on the emulator state; the reply "
+                     "TEXT is not modelled here — C12 models it), the empty arms CSI $ p / ESC # 8, BEL (one event), the statements of csi() in front of its switch "
+                     "(body_csi_pre = clampParams for every list) and update() (its type switch as the regenerated table updateArms: update_is_generated, update_shape)",
+                     "Draw: the translated body (Gen/TermDraw.lean, language Model/EmuDrawLang.lean) is the model drawG for all states and window sizes (body_Draw); "
+                     "conventions of evalDraw: the row loop reads its bound at entry, the column loop gets fuel = width (running out = Panic.hang, unreachable by draw_clipped); "
+                     "not modelled: the mutex, vt.dirty, the pty ioctl of Resize, win.Width/Height (a copy), the loop over vt.graphics (its source text is pinned: graphics_loop_pinned)",
+                     "C05Events: the LTS of the PTY goroutine is tied to the source by the translated loop (Gen/TermLoop.lean: the select statements with their arms; "
+                     "loop_is_generated: the transition system read off that data is Model.EmuEvents.step for every capacity, state and label), by the extracted facts eventCap, "
+                     "postEventIsPlainSend, loopArms, loopDrainsFirst, and validated against the real loop by the C05Events stream; the reading of a select "
+                     "(an arm is enabled when its channel is ready; default only when no receive arm is ready; parser and timer may be ready at any time) is Model/EmuLoop.lean"],
     "assumptions": ["terminal sizes between 1x1 and 65535x65535 (winsize fields are uint16; the property starts at 1x1)",
                     "one parsed sequence raises at most one event (theorem events_per_op_le_one for the model)",
                     "the host terminal answers an OSC 11 query (QueryBackground blocks on its reply; outside the child-output model)"],
@@ -46,14 +54,14 @@ CFG = {
                   "every OSC payload, every DCS (under DecoderTame for sixel) and every resize, the model of the current code neither panics nor hangs "
                   "and re-establishes the invariant (emu_safe_step, dcs_safe), lifted to all histories by induction (emu_safe_run, session_safe). Draw "
                   "writes only inside the host window (draw_clipped). The PTY goroutine never blocks in postEvent for any number of events and any "
-                  "schedule (events_never_stall_current). The model functions ARE the Go bodies: for ALL control functions — 66 translated bodies (all of csi.go, c0.go, "
+                  "schedule (events_never_stall_current; translated_loop_never_stalls for the loop as translated from the source). The model functions ARE the Go bodies: for ALL control functions — 73 translated bodies (all of csi.go, c0.go, "
                   "esc.go incl. decsc/decrc/ris, mode.go sm/rm/decset/decrst/decrqm with every arm, sgr(), osc(), print, resize incl. the reflow loop "
                   "nest, scrollUp/Down) the body translated from the source on every run evaluates to the model function for all states and all "
-                  "parameter lists / payloads (body_<fn>). A resize leaves the pen alone (resize_preserves_pen, resize_frame; F112c repaired). The "
+                  "parameter lists / payloads (body_<fn>); since round 4 also the arms that only answer the child or are empty, BEL, the parameter clamp of csi() (body_csi_pre), update() (update_is_generated), Draw (body_Draw: the translated body is the model the clipping theorems are about) and the PTY goroutine's loop (loop_is_generated). A resize leaves the pen alone (resize_preserves_pen, resize_frame; F112c repaired). The "
                   "statement was false before the repairs F15-F20, F105a-i: Witness/F*.lean prove it from concrete inputs.",
     "level_note": "Proved (all inputs, all sizes, all histories, all schedules): safety + invariant for the model; Draw clipping; event loop "
-                  "deadlock-freedom; model function = translated Go body for all 66 bodies (51 functions + the 15 inline arms of the dispatchers that contain code), no transcription-only residue (Gen/TermBodies.lean "
-                  "regenerated every run; unknown statements fail bodies_fully_recognised; all_generated_covered); no int64 overflow in 36 of them "
+                  "deadlock-freedom; model function = translated Go body for all 73 bodies (51 functions + the 21 arms of the dispatchers + the statements of csi() in front of its switch), update(), Draw and the goroutine loop: no transcription-only residue in widgets/term's dispatch path (Gen/TermBodies.lean, Gen/TermDraw.lean, Gen/TermLoop.lean "
+                  "regenerated every run; unknown statements fail bodies_fully_recognised; all_generated_covered); no int64 overflow in 38 of them "
                   "(range_<fn>); osc()/DCS/APC total for arbitrary payloads; pen, cursor shape, modes, tab stops, alternate grid, margins, saved-cursor "
                   "clamps and LastColOk across a resize for every old state (resize_frame). Also tied by Gen/TermModes.lean (dispatch labels with their callee, mode tables, sgr labels, attribute bits, tab stops, "
                   "event channel, loop shape, DCS guards and size limit) and by the correspondence check (snapshot after every op, real DCS/OSC "
